@@ -352,10 +352,10 @@ structure Entry where
 
 /-- `FileHandle::from_fd`: `none` = the file system has no file handles -/
 def fileHandleFromFd (f : Fd) : M (Option Nat) := do
-  match ← M.sys (.nameToHandle f AT_EMPTY_PATH) with
+  match ← M.sys (.nameToHandle f AT_EMPTY_PATH 0) with
   | .err e =>
     if e == EOVERFLOW then
-      match ← M.sys (.nameToHandle f AT_EMPTY_PATH) with
+      match ← M.sys (.nameToHandle f AT_EMPTY_PATH 128) with
       | .handle h => pure (some h)
       | .err e => M.throw e
       | _ => M.throw EIO
@@ -697,6 +697,22 @@ def createFileExcl (dir : Fd) (name : Name) (flags mode : Nat) : M (Option Fd) :
     if e == EEXIST then (if has flags O_EXCL then M.throw e else pure none) else M.throw e
   | _ => M.throw EIO
 
+/-- CREATE on an existing name without O_EXCL: open it with the caller's credentials; a failure
+    releases the lookup reference taken by `do_lookup` -/
+def createOpenExisting (cfg : Cfg) (ctx : Ctx) (entry : Entry) (flags fuseFlags : Nat) : M Fd := do
+  let r ← M.try' (if isDir entry.attr.mode then M.throw EISDIR else
+    withKillpriv (cfg.killprivV2 && has fuseFlags 1)
+      (withCreds ctx.uid ctx.gid (openInode cfg entry.inode flags)))
+  match r with
+  | .ok f => pure f
+  | .error e => do
+    M.modify fun s => forgetOne cfg s entry.inode 1
+    M.throw e
+
+/-- the handle CREATE returns (none in no_open mode) -/
+def createHandle (cfg : Cfg) (inode : Nat) (file : Fd) (flags : Nat) : M (Option Nat) :=
+  if !cfg.noOpen then do let h ← newHandle inode file flags; pure (some h) else pure none
+
 def create (cfg : Cfg) (ctx : Ctx) (parent : Nat) (name : Name) (flags mode umask fuseFlags : Nat) : M Reply := do
   validateName cfg name
   let d ← inodeData parent
@@ -706,17 +722,8 @@ def create (cfg : Cfg) (ctx : Ctx) (parent : Nat) (name : Name) (flags mode umas
   let entry ← doLookup cfg parent name
   let file ← (match newFile with
     | some f => pure f
-    | none => do
-      let r ← M.try' (do
-        if isDir entry.attr.mode then M.throw EISDIR else
-        withKillpriv (cfg.killprivV2 && has fuseFlags 1)
-          (withCreds ctx.uid ctx.gid (openInode cfg entry.inode flags)))
-      match r with
-      | .ok f => pure f
-      | .error e => do
-        M.modify fun s => forgetOne cfg s entry.inode 1
-        M.throw e : M Fd)
-  let h ← (if !cfg.noOpen then do let h ← newHandle entry.inode file flags; pure (some h) else pure none : M (Option Nat))
+    | none => createOpenExisting cfg ctx entry flags fuseFlags : M Fd)
+  let h ← createHandle cfg entry.inode file flags
   pure (.created entry h (createOpts cfg.cache))
 
 /-- `get_data` / `get_dirdata`: the handle's descriptor and recorded flags, or a fresh one -/
